@@ -24,6 +24,7 @@ from common import REPO, VERIF, Check, f2h, h2f, use_repo
 
 sys.path.insert(0, str(VERIF / "harness" / "translators"))
 import tr_options_c04c05 as tr_options  # noqa: E402
+import c04c05_holders as H  # noqa: E402
 
 TOL = 1e-10
 PSUM_TOL = 1e-12
@@ -105,11 +106,20 @@ def gen_case(rng, kind=None):
     if rng.random() < 0.6:
         add_updates(rng, c, rng.randint(1, 3))
     c["route"] = gen_route(rng)
+    c["holder"] = {n: rng.choice(H.KINDS) for n in ("shape", "inv", "mu") if c.get(n) is not None}
     apply_regime(rng, c, rng.choice(["f64"] * 6 + ["f32default"] * 2 + ["f32in"] * 2))
     if rng.random() < 0.25:
         c["deepcopy"] = True
     if rng.random() < 0.25:
         c["move"] = rng.choice(["cpu", "to"])
+    if c["route"].get("srd06"):
+        # the CLI's SRD06 spelling: one unbatched float64 mu, held by the view of srd06.mus; it is not reassigned
+        if c.get("mu") is None or c["batch"].get("mu") or c["regime"] != "f64":
+            c["route"].pop("srd06")
+        else:
+            for u in c.get("updates", []):
+                u["set"].pop("mu", None)
+            c["updates"] = [u for u in c.get("updates", []) if u["set"]]
     return c
 
 
@@ -144,6 +154,9 @@ def gen_route(rng, kind=None):
     if kind == "json":
         r["form"] = rng.choice(["inline", "ref"])
         r["fulltype"] = rng.random() < 0.3
+    if kind == "cli" and rng.random() < 0.5:
+        y = rng.uniform(0.05, 0.95)
+        r["srd06"] = {"y": [y, 1.0 - y], "view": rng.choice(["0:1", "1:2"])}
     return r
 
 
@@ -189,6 +202,43 @@ def state_at(c, k):
     return cc
 
 
+def uses_srd06(c):
+    """the CLI's SRD06 spelling of mu applies: CLI route, one unbatched float64 mu (not a one-category Weibull)"""
+    r = c.get("route") or {}
+    return bool(r.get("kind") == "cli" and r.get("srd06") and c.get("mu") is not None and not c["batch"].get("mu")
+                and regime_of(c) == "f64" and not (c["kind"] == "weibull" and c.get("K") == 1))
+
+
+_REG = [False]
+
+
+def register_all():
+    """what torchtree.py does before reading a JSON file: import every module so that short type names resolve"""
+    if not _REG[0]:
+        import importlib
+
+        from torchtree.core.utils import package_contents
+
+        for mod in package_contents("torchtree"):
+            try:
+                importlib.import_module(mod)
+            except Exception:
+                pass
+        _REG[0] = True
+
+
+def state_for(c, k, out):
+    """the case as it stands at step k, with every parameter at the value its object actually holds"""
+    cc = state_at(c, k)
+    eff = (out[3].get("effective") if len(out) > 3 else None) or {}
+    for n, vals in eff.items():
+        if cc.get(n) is not None and len(vals) == len(cc[n]):
+            if vals != cc[n] and not (n == "mu" and uses_srd06(c)):
+                cc.setdefault("_holder_mismatch", []).append(n)
+            cc[n] = vals
+    return cc
+
+
 def expected_unsupported(c):
     """parameter-batching subsets the implementation cannot broadcast (torch.cat of tensors of
     different rank / in-place `*=` into a smaller tensor): it raises; no value is returned."""
@@ -223,11 +273,13 @@ def run_impl(c):
         supplied[name] = t.clone()
         return t
 
+    holders = c.get("holder") or {}
+
     def par(name):
         v = c.get(name)
         if v is None:
             return None
-        pars[name] = Parameter(name, tens(name, v))
+        pars[name] = H.make(holders.get(name, "plain"), "sm." + name, tens(name, v))
         return pars[name]
 
     def build():
@@ -259,14 +311,14 @@ def run_impl(c):
         # ---- from_json routes
         from torchtree.core.utils import process_object
 
+        register_all()
         dic = {}
         JSON_KEY = {"shape": "shape", "inv": "invariant", "mu": "mu"}
 
         def pjson(name):
-            d = {"id": "sm." + name, "type": "Parameter", "tensor": tens(name, c[name]).tolist()}
-            if regime != "f64":
-                d["dtype"] = str(in_dtype)  # the JSON names the dtype when it is not the default one
-            return d
+            # the JSON names the dtype when it is not the default one
+            return H.make_json(holders.get(name, "plain"), "sm." + name, tens(name, c[name]),
+                               str(in_dtype) if regime != "f64" else None)
 
         tname = CLASS[c["kind"]]
         if kind == "cli":
@@ -277,16 +329,23 @@ def run_impl(c):
             arg = SimpleNamespace(categories=c.get("K", 1) if c["kind"] == "weibull" else 1,
                                   invariant=c.get("inv") is not None,
                                   model="SRD06" if c.get("mu") is not None else "JC69")
-            data = cli_evolution.create_site_model("sm", arg, w=pjson("mu") if c.get("mu") is not None else None)
+            w = pjson("mu") if c.get("mu") is not None else None
+            if uses_srd06(c):
+                # exactly what torchtree-cli -m SRD06 emits: mu is the view "0:1" / "1:2" of the shared, transformed
+                # vector srd06.mus (the case's mu value is then whatever that object holds: see `effective`)
+                mus = cli_evolution.create_site_model_srd06_mus("srd06.mus")
+                mus["x"]["tensor"] = list(route["srd06"]["y"])
+                process_object(json.loads(json.dumps(mus)), dic)
+                from torchtree.core.parameter import ViewParameter
+
+                w = ViewParameter.json_factory("sm.mu", "srd06.mus", route["srd06"]["view"])
+            data = cli_evolution.create_site_model("sm", arg, w=w)
             if data.get("type") != tname:
                 raise RuntimeError(f"CLI emitted {data.get('type')} for a {tname} request")
             for name in ("shape", "inv"):
                 if c.get(name) is not None:
-                    sub = data[JSON_KEY[name]]
-                    sub["tensor"] = tens(name, c[name]).tolist()
-                    sub["id"] = "sm." + name
-                    if regime != "f64":
-                        sub["dtype"] = str(in_dtype)
+                    keep = {k: v for k, v in data[JSON_KEY[name]].items() if k.startswith("@")}  # the CLI's constraints
+                    data[JSON_KEY[name]] = dict(pjson(name), **keep)
         else:
             data = {"id": "sm", "type": ("torchtree.evolution.site_model." + tname) if route.get("fulltype") else tname}
             if c["kind"] == "weibull":
@@ -314,7 +373,8 @@ def run_impl(c):
         want_mu = c.get("mu") is not None
         if hasattr(m, "_mu") and (m._mu is not None) != want_mu:
             bad.append(f"mu {'given' if want_mu else 'absent'} but object holds mu={m._mu is not None}")
-        if want_mu and getattr(m, "_mu", None) is not None and not torch.equal(m._mu.tensor, tens("mu", c["mu"])):
+        if want_mu and getattr(m, "_mu", None) is not None and not uses_srd06(c) \
+                and not torch.equal(m._mu.tensor, tens("mu", c["mu"])):
             bad.append("mu holds other values than given")
         if c["kind"] != "const":
             inv = getattr(m, "invariant", None)
@@ -342,13 +402,15 @@ def run_impl(c):
             p = m.probabilities()
         if not isinstance(r, torch.Tensor) or not isinstance(p, torch.Tensor) or r.dim() < 1 or p.dim() < 1:
             return ("raise", "TypeError", f"rates()/probabilities() returned {type(r).__name__}/{type(p).__name__}")
-        meta = {"rates_dtype": str(r.dtype), "probs_dtype": str(p.dtype)}
+        meta = {"rates_dtype": str(r.dtype), "probs_dtype": str(p.dtype),
+                # the values the parameter objects hold right now (what the options name, read back)
+                "effective": {n: par_.tensor.detach().double().reshape(-1).tolist() for n, par_ in pars.items()}}
         # the same call twice gives the same answer
         r2, p2 = m.rates(), m.probabilities()
         if not (torch.equal(torch.nan_to_num(r), torch.nan_to_num(r2)) and torch.equal(torch.nan_to_num(p), torch.nan_to_num(p2))):
             meta["not_repeatable"] = True
         # nothing handed in was modified
-        mutated = [n for n, par_ in pars.items() if n in supplied and
+        mutated = [n for n, par_ in pars.items() if n in supplied and not (n == "mu" and uses_srd06(c)) and
                    (par_.tensor.shape != supplied[n].shape or not torch.equal(par_.tensor, supplied[n]))]
         if mutated:
             meta["mutated_inputs"] = mutated
@@ -373,7 +435,11 @@ def run_impl(c):
             if c.get("grad") == "requires_grad":
                 for par_ in pars.values():
                     if par_.tensor.is_floating_point():
-                        par_.requires_grad = True
+                        try:
+                            par_.requires_grad = True
+                        except Exception:
+                            # a view cannot be made a leaf: the vector it views is
+                            getattr(par_, "parameter", par_).requires_grad = True
             if c.get("move"):
                 move(m)  # a device move before the first evaluation
             outs.append(read(m, "rp"))
@@ -392,6 +458,8 @@ def run_impl(c):
         for i, u in enumerate(c.get("updates", [])):
             try:
                 for name, v in u["set"].items():
+                    if name == "mu" and uses_srd06(c):
+                        continue  # the shared SRD06 vector is not reassigned through its view
                     pars[name].tensor = tens(name, v)
                 if c.get("move") and i % 2 == 0:
                     move(m)
@@ -553,7 +621,7 @@ def failing_steps(c, name):
         if out[0] != "ok":
             if name == "raises":
                 bad.append(k)
-        elif any(n == name for n, _ in oracle(state_at(c, k), out[1], out[2], out[3] if len(out) > 3 else None)):
+        elif any(n == name for n, _ in oracle(state_for(c, k, out), out[1], out[2], out[3] if len(out) > 3 else None)):
             bad.append(k)
     return bad
 
@@ -740,6 +808,39 @@ def run(ck: Check):
                         if order and any(c.get(n) is not None for n in ("shape", "inv", "mu")):
                             add_updates(ck.rng, c, 2)
                         cases.append((c, "routes"))
+    # every parameter argument as every AbstractParameter subclass (plain, view of a shared vector, transformed, cat),
+    # python objects and JSON; and the exact JSON torchtree-cli -m SRD06 emits (mu = view of the transformed srd06.mus)
+    for kind in ("const", "inv", "weibull"):
+        names = {"const": ["mu"], "inv": ["inv", "mu"], "weibull": ["shape", "inv", "mu"]}[kind]
+        for target in names:
+            for hk in H.KINDS[1:]:
+                for rk in ("ctor", "json"):
+                    for batched in (False, True):
+                        g = _gens(ck.rng)
+                        S = 3 if batched else 1
+                        c = {"kind": kind, "S": S, "regime": "f64"}
+                        if kind == "weibull":
+                            c.update(K=ck.rng.randint(2, 6), shape=[g["shape"]() for _ in range(S)])
+                        if kind != "const":
+                            c["inv"] = [g["inv"]() for _ in range(S)]
+                        c["mu"] = [g["mu"]() for _ in range(S)]
+                        c["batch"] = {n: batched for n in names}
+                        c["holder"] = {n: (hk if n == target else "plain") for n in names}
+                        c["route"] = {"kind": rk, "order": ck.rng.randrange(1000), "form": "inline", "fulltype": False}
+                        add_updates(ck.rng, c, 1, names=[target])
+                        cases.append((c, "holders"))
+    for kind, K in (("const", None), ("inv", None), ("weibull", 4)):
+        for view in ("0:1", "1:2"):
+            y = ck.rng.uniform(0.1, 0.9)
+            g = _gens(ck.rng)
+            c = {"kind": kind, "S": 1, "regime": "f64", "mu": [1.0],
+                 "route": {"kind": "cli", "order": 0, "srd06": {"y": [y, 1.0 - y], "view": view}}}
+            if kind == "weibull":
+                c.update(K=K, shape=[g["shape"]()], inv=[g["inv"]()])
+            if kind == "inv":
+                c["inv"] = [g["inv"]()]
+            c["batch"] = {n: False for n in ("shape", "inv", "mu") if n in c}
+            cases.append((c, "srd06"))
     # integer-typed parameter tensors (accepted by the API): the values are those of the same floats
     for K in (1, 3, 4):
         for shape in (1, 2):
@@ -797,18 +898,27 @@ def run(ck: Check):
             # evaluation under no_grad / with leaves requiring grad must agree bitwise with the plain one
             for mode in ("no_grad", "requires_grad"):
                 # (deepcopy of an object holding graph tensors is a torch limitation: not combined)
-                alt = run_impl(dict(c, grad=mode, deepcopy=False))
-                if [o[:3] for o in alt] != [o[:3] for o in outs]:
+                cc = dict(c, grad=mode, deepcopy=False)
+                want = outs
+                if mode == "requires_grad" and "view" in (c.get("holder") or {}).values():
+                    # assigning through a view writes in place into the shared leaf, which torch forbids once that
+                    # leaf requires grad (ViewParameter's business, not the site model's): first evaluation only
+                    cc["updates"], want = [], outs[:1]
+                alt = run_impl(cc)
+                if [o[:3] for o in alt] != [o[:3] for o in want]:
                     ck.mismatch("evaluation differs under grad mode " + mode, {"case": c})
                     failures.append((dict(c, grad=mode), "grad_mode_changes_values", {"mode": mode}))
         gradcount[0] += 1
         if rk != "ctor" and outs[0][0] == "ok":
-            ref = run_impl({x: y for x, y in c.items() if x not in ("route", "updates")})[0]
+            base = {x: y for x, y in state_for(c, 0, outs[0]).items() if x not in ("route", "updates", "holder")}
+            ref = run_impl(base)[0]
             if ref[0] != "ok" or ref[1] != outs[0][1] or ref[2] != outs[0][2]:
                 ck.mismatch("object built through this route evaluates differently from the constructor-built one",
                             {"case": c, "route_built": outs[0][1:], "constructor_built": ref[1:]})
         for k, out in enumerate(outs):
-            ck_ = state_at(c, k)
+            ck_ = state_for(c, k, out) if out[0] == "ok" else state_at(c, k)
+            if ck_.pop("_holder_mismatch", None):
+                ck.mismatch("a parameter object does not hold the values it was given", {"case": c, "step": k})
             hist = "/update:" + "+".join(sorted(c["updates"][k - 1]["set"])) if k else ""
             ck.case(key=key_of(ck_) + (k,), bucket=bucket_of(c) + hist + ("/raises" if out[0] == "raise" else ""),
                     sample={"case": c, "step": k, "impl": "raises " + out[1] if out[0] == "raise" else
@@ -848,7 +958,7 @@ def run(ck: Check):
             outs = run_impl(small)
             k = len(outs) - 1
             out = outs[k]
-            det = oracle(state_at(small, k), out[1], out[2], out[3] if len(out) > 3 else None) if out[0] == "ok" else [("raises", out[1:])]
+            det = oracle(state_for(small, k, out), out[1], out[2], out[3] if len(out) > 3 else None) if out[0] == "ok" else [("raises", out[1:])]
             det = [d for d in det if d[0] == name] or det
             after = f" after {len(small.get('updates', []))} parameter assignment(s) on a live object" if small.get("updates") else ""
             ck.violation(sig, f"{CLASS[c['kind']]} violates {name}{after}: {json.dumps(det[:1], default=str)[:300]}",
@@ -881,7 +991,7 @@ def replay(path: str) -> int:
             return 1
         print("rates:", out[1])
         print("probabilities:", out[2])
-        bad = oracle(state_at(c, k), out[1], out[2], out[3] if len(out) > 3 else None)
+        bad = oracle(state_for(c, k, out), out[1], out[2], out[3] if len(out) > 3 else None)
         for name, detail in bad:
             print("VIOLATES", name, detail)
             rc = 1
